@@ -1,4 +1,19 @@
 """C18 — parsers are total and round-trip with their formatters."""
+def compare(cmp, impl, model):
+    # custom:agree — totality plus a relation on the implementation alone (the model is not consulted): no cell may be a
+    # panic, and the cells after the separator (parse(s, None), s.parse::<T>(), <T as FromStr>::from_str(s)) must be one value
+    if any(c[0] == 5 for c in impl):
+        return "implementation panicked"
+    k = next((i for i, c in enumerate(impl) if c[0] == 9), None)
+    if k is None:
+        return "malformed (no separator)"
+    rest = impl[k + 1:]
+    if len(rest) < 2:
+        return "malformed (nothing to relate)"
+    if any(c != rest[0] for c in rest[1:]):
+        return "FromStr disagrees with parse(s, None): %s" % (rest,)
+    return None
+
 CFG = dict(
     bins=["c18"],
     imports=["Run.RunC18"],
@@ -15,7 +30,12 @@ CFG = dict(
          "instants in 6 bands up to the chrono range: rendered text and both parse results compared exactly with the "
          "text model, and the round trip checked directly when the format can express the instant; mutated date-time "
          "strings through the rule list (exact) and arbitrary strings (totality). Time::parse: valid HH:MM:SS[.f] strings "
-         "(exact) and arbitrary strings (totality). Non-trivial = distinct non-empty inputs.",
+         "(exact) and arbitrary strings (totality). FromStr by both routes (`s.parse::<T>()` and `<T as FromStr>::from_str(s)`) "
+         "for TimeDelta (every duration string), DateTime<U> (rendered texts, mutated, hand-picked and arbitrary strings) and Time "
+         "(valid and arbitrary strings) must return exactly what parse(s, None) returns and must not panic (tag fromstr=1; "
+         "comparator custom:agree on the arbitrary strings, an extra marker cell elsewhere); `TimeDelta::from(&str)` must give "
+         "the parsed value on accepted strings and its documented panic (never a value) on rejected ones. "
+         "Non-trivial = distinct non-empty inputs.",
     theorem_hint="Props/C18.v: C18_total, C18_wellformed, C18_parse_accepts_grammar, C18_parse_rejects, C18_parse_whitespace_*, C18_datetime_roundtrip, C18_earlier_rule_unambiguous, C18_datetime_roundtrip_listed_all_years",
     level_text="Proof: 17 theorems of Props/C18.v (axiom-free) about the Gallina model of the repaired TimeDelta::parse scanner "
                "(for every string: no panic, fuel never exhausted; for every well-formed term list whose numbers, products and "
